@@ -38,7 +38,11 @@ inductive Fault
   | badHandle
   deriving DecidableEq, Repr, Inhabited
 
-abbrev E := Except Fault
+/-- result of a modelled piece of Rust: a value or a fault -/
+inductive E (α : Type) where
+  | ok (a : α)
+  | error (f : Fault)
+  deriving DecidableEq, Repr, Inhabited
 
 def liftRes {α : Type} : Res α → E α
   | .ok a => .ok a
